@@ -168,13 +168,47 @@ View(ty, v) ==
       [] OTHER -> v
 
 \* ------------------------------------------------------------ mutation through DerefMut
-\* scripted mutation of KeepRaw<Vec<u32>> / KeepRaw<MaybeIndefArray<AnyUInt>>: push the number 3
-CanMutate(ty) == ty.c = "keepraw" /\ ty.e.c \in {"vec", "mia"}
+(* Scripted mutation: push the number 3 onto the list held by a KeepRaw, reaching it through DerefMut of  *)
+(* every KeepRaw on the way.  DerefMut of a KeepRaw clears its raw bytes; the encoder then writes the       *)
+(* content.  Shapes: KeepRaw<list>; KeepRaw<Vec<KeepRaw<list>>> (first element, through both);            *)
+(* Vec<KeepRaw<list>> (first element); CborWrap<KeepRaw<list>>.                                           *)
+IsKR(ty) == ty.c = "keepraw"
+LeafMut(ty) == IsKR(ty) /\ ty.e.c \in {"vec", "mia"} /\ ty.e.e.c \in {"u32", "anyuint"}
+CanMutate(ty) == \/ LeafMut(ty)
+                 \/ (IsKR(ty) /\ ty.e.c = "vec" /\ LeafMut(ty.e.e))
+                 \/ (ty.c \in {"vec", "cborwrap"} /\ LeafMut(ty.e))
 Pushed(ty) == IF ty.c = "u32" THEN <<3>> ELSE [w |-> 0, a |-> <<3>>]
+RECURSIVE Mutate(_, _)
 Mutate(ty, v) ==
-    [raw |-> <<>>,
-     inner |-> IF ty.e.c = "vec" THEN Append(v.inner, Pushed(ty.e.e))
-               ELSE [v.inner EXCEPT !.xs = Append(v.inner.xs, Pushed(ty.e.e))]]
+    IF LeafMut(ty) THEN
+        [raw |-> <<>>,
+         inner |-> IF ty.e.c = "vec" THEN Append(v.inner, Pushed(ty.e.e))
+                   ELSE [v.inner EXCEPT !.xs = Append(v.inner.xs, Pushed(ty.e.e))]]
+    ELSE IF IsKR(ty) THEN [raw |-> <<>>, inner |-> Mutate(ty.e, v.inner)]
+    ELSE IF ty.c = "vec" THEN (IF v = <<>> THEN v ELSE [v EXCEPT ![1] = Mutate(ty.e, v[1])])
+    ELSE Mutate(ty.e, v)
+
+(* Ways of obtaining a KeepRaw value.  to_owned() and clone() copy raw bytes and content (identity on the   *)
+(* abstract value); From<T> / serde Deserialize hold the content only, as the public constructors build    *)
+(* it (a constructed MaybeIndefArray / KeyValuePairs has no wide length head).  Applied to every KeepRaw   *)
+(* of the shapes above.                                                                                   *)
+Origins == {"decoded", "owned", "clone", "owned_clone", "from"}
+Built(ty, v) == Dec(ty, EncX(ty, v, TRUE))
+RECURSIVE Strip(_, _)
+Strip(ty, v) ==
+    IF IsKR(ty) THEN [raw |-> <<>>, inner |-> Built(ty.e, v.inner)]
+    ELSE IF ty.c = "vec" THEN [k \in 1..Len(v) |-> Strip(ty.e, v[k])]
+    ELSE Strip(ty.e, v)
+Orig(ty, v, o) == IF o = "from" THEN Strip(ty, v) ELSE v
+
+\* wide definite length heads anywhere inside the KeepRaws of a mutable shape (classifier only)
+RECURSIVE WideHeads(_, _)
+RECURSIVE WideHeadsIn(_, _)
+WideHeadsIn(ty, x) ==
+    CASE IsKR(ty) -> WideHeadsIn(ty.e, x)
+      [] ty.c = "vec" -> IF x.t \in {"arr", "arrI"} THEN UNION {WideHeadsIn(ty.e, x.xs[k]) : k \in 1..Len(x.xs)} ELSE {}
+      [] ty.c = "cborwrap" -> WideHeadsIn(ty.e, x.x.x)
+      [] OTHER -> WideHeads(ty, x)
 
 \* ------------------------------------------------------------ classification of an input (for finding keys)
 RECURSIVE Exotic(_)
@@ -205,7 +239,6 @@ Class(x) == LET e == Exotic(x) IN
     ELSE "canonical"
 
 \* which definite/indefinite container wrappers meet a definite length head wider than needed in this input
-RECURSIVE WideHeads(_, _)
 WideHeads(ty, x) ==
     CASE ty.c = "mia" ->
             (IF x.t = "arr" /\ x.w # MinW(Len(x.xs)) THEN {"MaybeIndefArray"} ELSE {})
@@ -220,7 +253,15 @@ WideHeads(ty, x) ==
 \* ------------------------------------------------------------ the laws (checked by MCCborHelpers)
 LawValueRoundTrip(ty, i) == Acc(ty, i) => LET v == Dec(ty, i) IN Acc(ty, Enc(ty, v)) /\ Dec(ty, Enc(ty, v)) = v
 LawPreserve(ty, i)       == (Acc(ty, i) /\ Preserving(ty)) => Enc(ty, Dec(ty, i)) = i
+\* (c) after the script the encoding is that of the content, whichever way the KeepRaw was obtained;
+\*     in particular it is not the old encoding when something was pushed
+Pushes(ty, v) == ~(ty.c = "vec" /\ v = <<>>) /\ ~(IsKR(ty) /\ ty.e.c = "vec" /\ IsKR(ty.e.e) /\ v.inner = <<>>)
 LawMutation(ty, i)       == (Acc(ty, i) /\ CanMutate(ty)) =>
-                               LET m == Mutate(ty, Dec(ty, i)) IN Enc(ty, m) = Enc(ty.e, m.inner)
+                               \A o \in Origins :
+                                  LET v == Orig(ty, Dec(ty, i), o)
+                                      m == Mutate(ty, v)
+                                  IN /\ (IsKR(ty) => Enc(ty, m) = Enc(ty.e, m.inner))
+                                     /\ (Pushes(ty, v) => Ser(Enc(ty, m)) # Ser(Enc(ty, v)))
+                                     /\ (o # "from" => Enc(ty, v) = Enc(ty, Dec(ty, i)))
 LawEncWF(ty, i)          == Acc(ty, i) => LET e == Enc(ty, Dec(ty, i)) IN ItemOK(e) /\ WF(Tokens(e))
 =============================================================================
